@@ -2,7 +2,7 @@ from .core import BASE_TRUST
 
 META = {
     "category": "proof",
-    "text": "Lean 4 theorems: the joined comparison key is uniquely decodable (injective) for every character repertoire; two rows share a bucket iff their normalised tuples are equal; GROUP BY over any split of the rows into worker chunks equals the sequential specification (keys in first-occurrence order, members exactly the rows of that key in row order). Model tied to /repo by differential correspondence: key bytes of SerializeComparisonKeys, GROUP BY / DISTINCT / UNION / EXCEPT / INTERSECT through SQL at --cpu 1..8, value pools seeded with families of equal values spelled / typed differently (1, 1.0, 1e0, ' 1 '; 1.5, 1.50, 15e-1; ±0; case variants; date spellings); law checks on the implementation: every aggregate (incl. DISTINCT forms, list aggregates WITHIN GROUP (ORDER BY expression), a user-defined aggregate) over a bucket equals the aggregate over exactly that bucket's rows, the same over a derived table, and the DISTINCT option of aggregates (plain, GROUP BY, OVER PARTITION BY, --strict-equal) uses the buckets of SELECT DISTINCT",
+    "text": "Lean 4 theorems: the joined comparison key is uniquely decodable (injective) for every character repertoire; two rows share a bucket iff their normalised tuples are equal; GROUP BY over any split of the rows into worker chunks equals the sequential specification (keys in first-occurrence order, members exactly the rows of that key in row order). The SHAPE of the keys is regenerated from lib/query/utils.go on every run (extract/keyfacts: the conversion ladder of SerializeKey in order with the writer of each rung, the type switch of SerializeIdenticalKey, the tag bytes and payload of every writer, separator, escape rule, -0 folding) and gen_ladder_eq_model / gen_strict_ladder_eq_model / gen_separator_and_escape / gen_tags_distinct / gen_payloads_eq_ref prove it equal to what the model's norm / tagOf / serKeys / escKey assume. Model also tied to /repo by differential correspondence: key bytes of SerializeComparisonKeys, GROUP BY / DISTINCT / UNION / EXCEPT / INTERSECT through SQL at --cpu 1..8, value pools seeded with families of equal values spelled / typed differently (1, 1.0, 1e0, ' 1 '; 1.5, 1.50, 15e-1; ±0; case variants; date spellings); law checks on the implementation: every aggregate (incl. DISTINCT forms, list aggregates WITHIN GROUP (ORDER BY expression), a user-defined aggregate) over a bucket equals the aggregate over exactly that bucket's rows, the same over a derived table, and the DISTINCT option of aggregates (plain, GROUP BY, OVER PARTITION BY, --strict-equal) uses the buckets of SELECT DISTINCT",
     "design_ref": "DESIGN.md section 5, C04",
     "note": "trusted: Lean kernel; harness + driver; strconv integer/float texts enter as a KeyText parameter assumed injective and free of ':' and '\\' (checked per observed text by the correspondence); aggregates' own arithmetic is not modelled (only which rows they see); datetime keys use UnixNano (int64 wrap for years outside 1678-2262 is modelled as in the code)",
     "technique": "Lean 4 machine-checked proof (decoder-based injectivity, refinement of chunked grouping to a sequential spec) + differential correspondence with the Go implementation",
@@ -15,6 +15,7 @@ def run(run):
         "KeyTextOK: strconv.FormatInt / FormatFloat texts are injective and contain neither ':' nor '\\'",
         "strings enter with the coercion profile reported by the real value.To* functions",
     ]
+    run.regen("keyfacts", ["go", "run", "-C", "extract/keyfacts", "."], "Csvq/Gen/KeyFacts.lean")
     run.obligations_for(["Csvq.Props.C04"])
     run.stream("c04", 1200 if q else 40000)
     if not q:
